@@ -174,7 +174,10 @@ UNOPS = {"Not", "Neg", "PtrMetadata"}
 def parse_rvalue(s):
     s = s.strip()
     if s.startswith("&raw const ") or s.startswith("&raw mut "):
-        return ("rawref", parse_place(s.split(" ", 2)[2]))
+        rest = s.split(" ", 2)[2].strip()
+        if rest.startswith("(fake) "):          # fake borrow for a match guard: an ordinary address-of here
+            rest = rest[7:].strip()
+        return ("rawref", parse_place(rest))
     if s.startswith("&mut "):
         return ("ref", parse_place(s[5:]), True)
     if s.startswith("&"):
